@@ -38,6 +38,40 @@ META = {
 }
 
 
+def limit_copy_rule(ctx: Ctx, rid: str):
+    """Limit.copy passes every constructor argument from the same-named field (C05 R05.7 / C16 / C14)."""
+    repo = ctx.repo
+    cp = repo.func("Limit.copy")
+    init = repo.func("Limit.__init__")
+    params = [a.arg for a in init.node.args.args if a.arg != "self"] + [a.arg for a in init.node.args.kwonlyargs]
+    for r in returns(cp):
+        c = r.value
+        if not (isinstance(c, ast.Call) and (dotted(c.func) or "").split(".")[-1] in ("Limit", "__class__", "type")):
+            from ..model import Inconclusive
+            raise Inconclusive(f"Limit.copy returns {norm(c)[:60]}: not a constructor call the rule understands")
+        passed = {}
+        for i, a in enumerate(c.args):
+            if isinstance(a, ast.Starred):
+                from ..model import Inconclusive
+                raise Inconclusive("Limit.copy passes *args")
+            if i < len(params):
+                passed[params[i]] = a
+        for k in c.keywords:
+            if k.arg is None:
+                from ..model import Inconclusive
+                raise Inconclusive("Limit.copy passes **kwargs")
+            passed[k.arg] = k.value
+        # fields assigned after construction count too (c = Limit(...); c.x = self.x is not used today)
+        for prm in params:
+            a = passed.get(prm)
+            ok = a is not None and norm(a) == f"self.{prm}"
+            ctx.ob(rid, f"{cp.qual}: {prm} := {norm(a) if a is not None else '<default>'}", (cp, r), ok,
+                   "the per-scenario copy carries this setting of the declared limit" if ok else
+                   f"Limit.copy() does not pass self.{prm}: the copies the scheduler works with fall back to the default for "
+                   f"{prm} (e.g. open_ended=False: counters stop at the declared project end and the limit is not enforced beyond it)",
+                   key=key_of(rid, cp, None, f"copy {prm}"))
+
+
 def _limit_calls(fn, meth):
     """calls x.<meth>(...) where x is a limits object: returns [(call, receiver text, in ancestor loop?)]"""
     out = []
@@ -365,35 +399,7 @@ def run(ctx: Ctx):
         raise AnchorMissing("Limit._idx_to_sb_idx: daily / weekly branches not found")
 
     # ---------------------------------------------------------------- R05.7 copy() carries every constructor argument
-    cp = repo.func("Limit.copy")
-    init = repo.func("Limit.__init__")
-    params = [a.arg for a in init.node.args.args if a.arg != "self"] + [a.arg for a in init.node.args.kwonlyargs]
-    for r in returns(cp):
-        c = r.value
-        if not (isinstance(c, ast.Call) and (dotted(c.func) or "").split(".")[-1] in ("Limit", "__class__", "type")):
-            from ..model import Inconclusive
-            raise Inconclusive(f"Limit.copy returns {norm(c)[:60]}: not a constructor call the rule understands")
-        passed = {}
-        for i, a in enumerate(c.args):
-            if isinstance(a, ast.Starred):
-                from ..model import Inconclusive
-                raise Inconclusive("Limit.copy passes *args")
-            if i < len(params):
-                passed[params[i]] = a
-        for k in c.keywords:
-            if k.arg is None:
-                from ..model import Inconclusive
-                raise Inconclusive("Limit.copy passes **kwargs")
-            passed[k.arg] = k.value
-        # fields assigned after construction count too (c = Limit(...); c.x = self.x is not used today)
-        for prm in params:
-            a = passed.get(prm)
-            ok = a is not None and norm(a) == f"self.{prm}"
-            ctx.ob("R05.7", f"{cp.qual}: {prm} := {norm(a) if a is not None else '<default>'}", (cp, r), ok,
-                   "the per-scenario copy carries this setting of the declared limit" if ok else
-                   f"Limit.copy() does not pass self.{prm}: the copies the scheduler works with fall back to the default for "
-                   f"{prm} (e.g. open_ended=False: counters stop at the declared project end and the limit is not enforced beyond it)",
-                   key=key_of("R05.7", cp, None, f"copy {prm}"))
+    limit_copy_rule(ctx, "R05.7")
     ctx.floor("R05.7", 9)
     ctx.floor("R05.6", 2)
 
